@@ -41,22 +41,31 @@ pub fn payloads() -> Vec<(&'static str, Vec<u8>)> {
 /// texts that must reach the shell verbatim (printed with printf %s)
 pub const VERBATIM: [&str; 12] = ["{name}", "{state_directory}", "{shell_expression}", "{excluded_variables}", "{persist_state}", "$HOME", "a\\b", "it''s", "\"q\"", "{", "}}", "{name}{name}"];
 
-/// shell expressions of awkward shapes (trailing line continuation, comment, multi-line quotes, here-doc, compound commands):
-/// (expression, expected stdout, expected exit code)
-pub fn raw_expressions() -> Vec<(&'static str, &'static str, i32)> {
+/// shell expressions of awkward shapes (trailing line continuation, comment, multi-line quotes, here-doc, compound commands)
+/// and expressions that change what scrut's own scaffolding around the expression depends on (IFS, PATH, functions named
+/// like the commands it calls, shell tracing): (expression, expected stdout, expected stderr, expected exit code, tag)
+pub fn raw_expressions() -> Vec<(&'static str, &'static str, &'static str, i32, &'static str)> {
     vec![
-        ("echo foo \\", "foo\n", 0),
-        ("printf '%s\\n' one \\\n  two \\", "one\ntwo\n", 0),
-        ("echo a # trailing comment", "a\n", 0),
-        ("echo 'multi\nline quote'", "multi\nline quote\n", 0),
-        ("cat <<EOF\nheredoc $((1+1))\nEOF", "heredoc 2\n", 0),
-        ("if true; then\n  echo yes\nfi", "yes\n", 0),
-        ("echo $((2+3)); false", "5\n", 1),
-        ("f() { echo in-f; }; f", "in-f\n", 0),
-        ("echo x |\n  tr x y", "y\n", 0),
-        ("echo 'tab\there'", "tab\there\n", 0),
-        ("true &&\n  echo chained", "chained\n", 0),
-        ("echo no-newline-at-end; (exit 9)", "no-newline-at-end\n", 9),
+        ("echo foo \\", "foo\n", "", 0, ""),
+        ("printf '%s\\n' one \\\n  two \\", "one\ntwo\n", "", 0, ""),
+        ("echo a # trailing comment", "a\n", "", 0, ""),
+        ("echo 'multi\nline quote'", "multi\nline quote\n", "", 0, ""),
+        ("cat <<EOF\nheredoc $((1+1))\nEOF", "heredoc 2\n", "", 0, ""),
+        ("if true; then\n  echo yes\nfi", "yes\n", "", 0, ""),
+        ("echo $((2+3)); false", "5\n", "", 1, ""),
+        ("f() { echo in-f; }; f", "in-f\n", "", 0, ""),
+        ("echo x |\n  tr x y", "y\n", "", 0, ""),
+        ("echo 'tab\there'", "tab\there\n", "", 0, ""),
+        ("true &&\n  echo chained", "chained\n", "", 0, ""),
+        ("echo no-newline-at-end; (exit 9)", "no-newline-at-end\n", "", 9, ""),
+        // the exit code is not re-split with the test's IFS
+        ("IFS=0; (exit 10)", "", "", 10, ""),
+        ("IFS=5; (exit 152)", "", "", 152, ""),
+        // nothing of scrut's own work around the expression shows up in the test's output
+        ("PATH=/nonexistent; echo hi", "hi\n", "", 0, ""),
+        ("mkdir() { echo \"mkdir called: $*\"; }; grep() { echo mock grep; }; echo hi", "hi\n", "", 0, ""),
+        ("echo() { printf 'E:%s\\n' \"$*\"; }; echo hi", "E:hi\n", "", 0, ""),
+        ("set -x; echo hi", "hi\n", "+ echo hi\n", 0, "shell-tracing"),
     ]
 }
 
@@ -362,20 +371,23 @@ impl Engine for VcIo {
             IoCase::Raw { idx, exec } => {
                 let scratch = Scratch::new();
                 res.nontrivial.push(("C13", key));
-                let (expr, want_out, want_code) = raw_expressions()[*idx];
+                let (expr, want_out, want_err, want_code, tag) = raw_expressions()[*idx];
                 let cfg = if *exec == Exec::Script { TestCaseConfig { output_stream: Some(OutputStreamControl::Stdout), keep_crlf: Some(true), ..TestCaseConfig::default_cram() } } else { TestCaseConfig::default_markdown() };
                 let mk = |e: &str| TestCase { title: "t".into(), shell_expression: e.into(), expectations: vec![], exit_code: None, line_number: 1, config: cfg.clone() };
-                let tcs = vec![mk("(exit 4)"), mk(expr), mk("echo next")];
+                // (the third test case uses builtins explicitly: the second may have defined functions with any name)
+                let tcs = vec![mk("(exit 4)"), mk(expr), mk("set +x; builtin echo next")];
+                let tags: Vec<&str> = if tag.is_empty() { vec![] } else { vec![tag] };
                 match guard(|| execute(*exec, &tcs, DocumentConfig::default_markdown(), &scratch)) {
                     Ok(Ok(outs)) if outs.len() == 3 => {
-                        let got: Vec<(Vec<u8>, ExitStatus)> = outs.iter().map(|o| ((&o.stdout).into(), o.exit_code.clone())).collect();
-                        let want: Vec<(Vec<u8>, ExitStatus)> = vec![(vec![], ExitStatus::Code(4)), (want_out.as_bytes().to_vec(), ExitStatus::Code(want_code)), (b"next\n".to_vec(), ExitStatus::Code(0))];
+                        let got: Vec<(Vec<u8>, Vec<u8>, ExitStatus)> = outs.iter().map(|o| ((&o.stdout).into(), (&o.stderr).into(), o.exit_code.clone())).collect();
+                        let want: Vec<(Vec<u8>, Vec<u8>, ExitStatus)> = vec![(vec![], vec![], ExitStatus::Code(4)), (want_out.as_bytes().to_vec(), want_err.as_bytes().to_vec(), ExitStatus::Code(want_code)), (b"next\n".to_vec(), vec![], ExitStatus::Code(0))];
                         res.outcome.push(("C13", hash64(&("raw", exec, got == want))));
                         if got != want {
-                            fail(&mut res, "expression-runs-verbatim-and-is-attributed", format!("`{expr}` between `(exit 4)` and `echo next`: {:?}", want.iter().map(|(o, c)| (String::from_utf8_lossy(o).to_string(), c.clone())).collect::<Vec<_>>()), format!("{:?}", got.iter().map(|(o, c)| (String::from_utf8_lossy(o).to_string(), c.clone())).collect::<Vec<_>>()), &[]);
+                            let show = |v: &[(Vec<u8>, Vec<u8>, ExitStatus)]| format!("{:?}", v.iter().map(|(o, e, c)| (String::from_utf8_lossy(o).to_string(), String::from_utf8_lossy(e).chars().take(300).collect::<String>(), c.clone())).collect::<Vec<_>>());
+                            fail(&mut res, "expression-runs-verbatim-and-is-attributed", format!("`{expr}` between `(exit 4)` and `set +x; builtin echo next`, (stdout, stderr, exit code): {}", show(&want)), show(&got), &tags);
                         }
                     }
-                    other => fail(&mut res, "execution-succeeds", format!("three outputs for `{expr}`"), format!("{:?}", other.map(|r| r.map(|o| o.len()).map_err(|e| e.to_string()))), &[]),
+                    other => fail(&mut res, "execution-succeeds", format!("three outputs for `{expr}`"), format!("{:?}", other.map(|r| r.map(|o| o.len()).map_err(|e| e.to_string()))), &tags),
                 }
             }
             IoCase::PlainExit { code } => {
